@@ -316,6 +316,9 @@ func (t *Type) asID(seeNamed, escapeReserved bool) string {
 		return "unnamed"
 	}
 	if t.Chan {
+		if escapeReserved {
+			return "xchan"
+		}
 		return "chan"
 	}
 	return "unknown"
